@@ -34,9 +34,9 @@ var errTransfer = errors.New("transfer broke")
 // StatesFor lists the named states the harness can drive a channel of a role into.
 func StatesFor(r Role) []string {
 	if r.Created() {
-		return []string{"requested", "accepted", "ongoing", "ongoing-data", "self-paused", "other-paused", "transfer-finished", "responder-completed", "responder-finalizing", "completed", "cancelled", "failed"}
+		return []string{"requested", "accepted", "ongoing", "ongoing-data", "two-vouchers", "self-paused", "other-paused", "transfer-finished", "responder-completed", "responder-finalizing", "completed", "cancelled", "failed"}
 	}
-	return []string{"accepted", "ongoing", "ongoing-data", "self-paused", "other-paused", "limit-paused", "finalizing", "completed", "cancelled", "failed"}
+	return []string{"accepted", "ongoing", "ongoing-data", "two-vouchers", "self-paused", "other-paused", "limit-paused", "finalizing", "completed", "cancelled", "failed"}
 }
 
 // IsTerminalState tells whether the named state is terminal.
@@ -99,6 +99,17 @@ func Setup(n *Node, r Role, state string, opts ...datatransfer.TransferOption) d
 		ongoing()
 		data(1, 10)
 		data(2, 20)
+	case "two-vouchers":
+		ongoing()
+		data(1, 10)
+		fv := doubles.Voucher("T", "follow-up")
+		if r.Created() {
+			_ = n.Mgr.SendVoucher(ctx, chid, fv)
+			mc.Wait()
+		} else {
+			vr, _ := message.VoucherRequest(chid.ID, &fv)
+			n.RecvRequest(doubles.PeerB, vr)
+		}
 	case "self-paused":
 		ongoing()
 		_ = n.Mgr.PauseDataTransferChannel(ctx, chid)
@@ -163,7 +174,7 @@ func ExpectStatus(r Role, state string) datatransfer.Status {
 		return datatransfer.Requested
 	case "accepted":
 		return datatransfer.Queued
-	case "ongoing", "ongoing-data", "self-paused", "other-paused", "limit-paused":
+	case "ongoing", "ongoing-data", "two-vouchers", "self-paused", "other-paused", "limit-paused":
 		return datatransfer.Ongoing
 	case "finalizing":
 		return datatransfer.Finalizing
